@@ -36,7 +36,7 @@ func providerAtoms() []guard.Atom {
 }
 
 func checkC10(r *core.Run) {
-	r.Explanation = "C10 (structural clauses only): in every handler that takes a creator/provider pair, every state-changing effect is dominated, on all paths, by the comparisons that tie the signer to the actor it claims to be; boolean flags (isProvider, isCreator) are expanded to the comparisons that can set them. Node handlers key every record and counter-party by the signer. Decides which comparisons guard which effects, for all paths; it does not decide that TxAddresses lists are themselves honest."
+	r.Explanation = "C10 (structural clauses only): in every handler that takes a creator/provider pair, every state-changing effect is dominated, on all paths, by the comparisons that tie the signer to the actor it claims to be; boolean flags (isProvider, isCreator) are expanded to the comparisons that can set them. Node handlers key every record and counter-party by the signer. Decides which comparisons guard which effects, for all paths; it does not decide that TxAddresses lists are themselves honest. An account is added to an existing DID's bound accounts only when the submitter is already bound to that DID (G-bound)."
 	r.Rule("G-complete: every state-changing call in sao Complete <= (msg.Provider == msg.Creator OR msg.Creator in TxAddresses(GetNode(msg.Provider))) AND GetOrderShardBySP(order, msg.Provider) != nil AND shard.Status != Completed")
 	r.Rule("G-cancel: ShardRelease/RemoveShard/CancelOrder in sao Cancel <= order.Creator == msg.Creator OR order.Creator in TxAddresses of the ORDER's provider (not of a provider the message merely names)")
 	r.Rule("G-ready / G-migrate / G-payer: same scheme, see DESIGN A.2")
